@@ -132,6 +132,14 @@ func runSeed(seed uint64, id string, run int) uint64 {
 	return simrt.Mix(seed, simrt.HashString(id), uint64(run))
 }
 
+// flavourID makes the race flavour explore other plans than the plain one.
+func flavourID(c Check, o Opts) string {
+	if o.Flavour == "race" {
+		return c.ID() + "/race"
+	}
+	return c.ID()
+}
+
 // Main is the entry point of a driver binary.
 func Main(checks map[string]Check) {
 	var (
@@ -183,7 +191,7 @@ func Main(checks map[string]Check) {
 }
 
 func runOne(c Check, o Opts, run int) {
-	rng := simrt.NewRand(runSeed(o.Seed, c.ID(), run))
+	rng := simrt.NewRand(runSeed(o.Seed, flavourID(c, o), run))
 	plan := c.Gen(rng, o.Tier, run)
 	pj, _ := json.Marshal(plan)
 	plans := c.Expand(pj)
@@ -191,7 +199,7 @@ func runOne(c Check, o Opts, run int) {
 		plans = []json.RawMessage{pj}
 	}
 	for sub, p := range plans {
-		tape := simrt.NewTape(simrt.NewRand(simrt.Mix(runSeed(o.Seed, c.ID(), run), uint64(sub), 77)), c.Strategy(rng))
+		tape := simrt.NewTape(simrt.NewRand(simrt.Mix(runSeed(o.Seed, flavourID(c, o), run), uint64(sub), 77)), c.Strategy(rng))
 		out := c.Exec(p, tape, true)
 		fmt.Printf("run %d sub %d plan %s\n", run, sub, string(p))
 		for _, l := range out.Log {
@@ -226,7 +234,7 @@ func RunBatch(c Check, o Opts) *WorkerResult {
 			res.FirstRun = run
 		}
 		res.LastRun = run
-		rs := runSeed(o.Seed, c.ID(), run)
+		rs := runSeed(o.Seed, flavourID(c, o), run)
 		rng := simrt.NewRand(rs)
 		plan := c.Gen(rng, o.Tier, run)
 		pj, err := json.Marshal(plan)
@@ -396,8 +404,10 @@ func Minimise(c Check, rp *Replay, o Opts) *Replay {
 	execs := 0
 	maxExecs := 400
 	maxTime := 90 * time.Second
-	if strings.HasSuffix(rp.Oracle, "race") {
-		maxExecs = 120
+	isRace := strings.HasSuffix(rp.Oracle, "race")
+	if isRace {
+		maxExecs = 36
+		maxTime = 30 * time.Second
 	}
 	ok := func() bool { return execs < maxExecs && time.Since(start) < maxTime }
 	cur := *rp
@@ -514,8 +524,10 @@ func Minimise(c Check, rp *Replay, o Opts) *Replay {
 			}
 		}
 	}
-	shrinkStream(func() []int32 { return cur.Sched }, func(v []int32) { cur.Sched = v })
-	shrinkStream(func() []int32 { return cur.Aux }, func(v []int32) { cur.Aux = v })
+	if !isRace {
+		shrinkStream(func() []int32 { return cur.Sched }, func(v []int32) { cur.Sched = v })
+		shrinkStream(func() []int32 { return cur.Aux }, func(v []int32) { cur.Aux = v })
+	}
 	// final decoded run
 	if !strings.HasSuffix(rp.Oracle, "race") {
 		out := c.Exec(cur.Plan, simrt.Replay(cur.Sched, cur.Aux), true)
